@@ -125,9 +125,12 @@ def cases(tier):
         for pad in _pads(tier):
             yield Case("corr:ny=%d:nx=%d:pad=%d" % (ny, nx, pad), {"kind": "corr", "ny": ny, "nx": nx, "pad": pad})
     yield Case("quadcell", {"kind": "quad"})
+    yield Case("storage", {"kind": "storage"})
 
 
 def evaluate(p):
+    if p["kind"] == "storage":
+        return _storage(p)
     with warnings.catch_warnings():
         warnings.simplefilter("ignore")
         k = p["kind"]
@@ -529,4 +532,34 @@ def _quad():
     q2 = _xy(C.quadCell(2 * numpy.array([[0., 1.], [0., 3.]])))
     o.note("quadcell_doubles_when_image_doubles", bool(numpy.array_equal(q2, 2 * q1)))
     w.flush()
+    return o
+
+
+def _storage(p):
+    """centroids are functions of the pixel VALUES: the same image / stack in another memory layout or dtype
+    (Fortran order, strided and transposed views, read-only, float32, signed and unsigned integer counts) gives
+    the same answers (the library gets a fresh array every time)"""
+    from mc import variants
+    C = _lib()
+    o = Out()
+    i, j = numpy.indices((5, 6))
+    img = ((3 * i * i + 5 * j + 2 * i * j) % 13 + (i == 2) * (j == 3) * 20).astype(float)
+    st = numpy.array([img, numpy.roll(img, 1, 0), numpy.roll(img, 2, 1) * 2])
+    ref = numpy.roll(img, 1, 1)
+    fns = {
+        "cog": lambda a: C.centre_of_gravity(a),
+        "cog_thr0.3": lambda a: C.centre_of_gravity(a, threshold=0.3),
+        "bp0.4": lambda a: C.brightest_pixel(a, 0.4),
+        "corr": lambda a: C.correlation_centroid(a, ref.copy()),
+        "corr_pad2_thr": lambda a: C.correlation_centroid(a, ref.copy(), threshold=0.2, padding=2),
+        "quad": lambda a: C.quadCell(a[..., :2, :2]),
+    }
+    for name, f in fns.items():
+        for dname, data in (("2d", img), ("3d", st)):
+            n = variants.check_storage(o, "centroid_independent_of_storage", f, data, 1e-12, sub="%s:%s" % (name, dname))
+            o.stat("lib_calls", n)
+    # the reference image of the correlation centroider, too
+    n = variants.check_storage(o, "centroid_independent_of_storage",
+                               lambda r: C.correlation_centroid(st.copy(), r), ref, 1e-12, sub="corr:reference")
+    o.stat("lib_calls", n)
     return o
